@@ -125,8 +125,12 @@ class ModuleOutput(Feature, Module):
         return self(self.inputs.get(time_step))
 
     def of(self: TM, derivative: BaseDerivative, hedger: Optional[Module] = None) -> TM:
-        self.inputs = self.inputs.of(derivative, hedger)
-        return self
+        # As the other features do: return a bound copy (the module and its parameters are
+        # shared) and leave self as it is, so that a handle obtained earlier keeps reading
+        # the derivative it was bound to.
+        output = copy.copy(self)
+        output.inputs = self.inputs.of(derivative, hedger)
+        return output
 
     def is_state_dependent(self) -> bool:
         return self.inputs.is_state_dependent()
